@@ -328,6 +328,21 @@ def run_property(prop, tier, seed, workers=None, examples=None, shrink=None):
     total = Stats()
     found = []
     errors = []
+    # seconds-long replay tier: committed regression cases (shrunk failures of defects that were repaired)
+    import glob
+
+    for path in sorted(glob.glob(os.path.join(ROOT, "replays", prop, "regression_*.json"))):
+        data = json.load(open(path))
+        case = dec(data["case"]) if "case" in data else dec(data)
+        ctx = Ctx(excluded)
+        try:
+            mod.check_case(case, ctx)
+        except Violation as v:
+            found.append((v.signature, v.message, case))
+        except Exception as e:
+            note_harness_exception(total, ctx, e)
+        ctx.label("regression-replay")
+        total.record(case, ctx)
     for status, payload, f in results:
         if status == "error":
             errors.append(payload)
